@@ -124,6 +124,6 @@ Lemma pretend_fs_unchanged_view : forall cfg w e cmd um,
   wo_fs (v_after (view_of_model cfg w e cmd um)) = wo_fs w.
 Proof.
   intros cfg w e cmd um Hnd Hp. rewrite view_model_eq. cbv zeta. cbn [v_after wo_fs].
-  exact (pretend_same cfg e um (start w) (LayersP.nodup_paths_NoDup _ Hnd) cmd Hp).
+  exact (pretend_same cfg e um (start w) (C02LayersP.nodup_paths_NoDup _ Hnd) cmd Hp).
 Qed.
 
